@@ -183,6 +183,69 @@ def documented_defaults(ctx, rule):
     return n
 
 
+
+def composite_operators(ctx, rule):
+    """a + b is Struct(*(members of a + members of b)), a >> b the same with Sequence; the operands themselves are left as they were."""
+    for dunder, cls in (("__add__", "Struct"), ("__rshift__", "Sequence")):
+        fi, paths = own_method_paths(ctx, "Construct", dunder)
+        o = ("param", "other")
+        ok = len(paths) == 1
+        if ok:
+            r = paths[0].retval
+            isS = lambda x: ("call", ("free", "isinstance"), (x, ("free", cls)), ())
+            lhs = N.mk_ite(isS(SELF), ("attr", SELF, "subcons"), ("list", (SELF,)))
+            rhs = N.mk_ite(isS(o), ("attr", o, "subcons"), ("list", (o,)))
+            ok = r[0] == "ctor" and r[1] == cls and len(r[2]) == 1 and r[2][0][0] == "star" and r[2][0][1] in (("uconcat", lhs, rhs), ("concat", lhs, rhs))
+        ctx.ob(rule, fi, ok, "a %s b is %s(*(members of a + members of b)), flattening %s operands only" % ("+" if cls == "Struct" else ">>", cls, cls), key=dunder)
+        pure = not any(e.kind in ("SELFWRITE", "MUT", "STORE") for p in paths for e in p.events)
+        ctx.ob(rule, fi, pure, "a %s b builds a new member list: neither operand's own list is extended in place (the composite on the left would grow with every derivation)" % ("+" if cls == "Struct" else ">>"), key=dunder + " operands untouched")
+
+
+def enum_merge(ctx, rule, cls, prefix="", key=None, loc=None):
+    """Enum / FlagsEnum merge an enum class by writing name -> value of each *canonical* member (iterating the class skips aliases; iterating
+    __members__ does not, and an alias would replace the canonical label in the decode table) into the keyword mapping, unconditionally,
+    before the tables are derived.  Recognised spellings: a store loop over the class, or mapping.update(<generator over the class>)."""
+    fi, paths = own_method_paths(ctx, cls, "__init__")
+    dst = ("param", "**mapping") if cls == "Enum" else ("param", "**flags")
+    good = False
+    every = True
+    why = ""
+    undecided = None
+    for p in paths:
+        inner_iters = [e for e in p.events if e.kind == "ITER" and len(e.loops) >= 2]
+        st = [e for e in p.events if e.kind == "STORE" and e["base"] == dst]
+        up = [e for e in p.events if e.kind == "MUT" and e["base"] == dst and e["method"] == "update" and e.loops]
+        wr = [e for e in p.events if e.kind == "SELFWRITE" and e["base"] == SELF and e["attr"] in ("encmapping", "decmapping", "flags")]
+        if inner_iters and not st:
+            every = False       # an entry of a merged enum class was skipped (e.g. a member whose value is 0)
+        if any(e["key"][0] == "attr" and any(g != e["key"][1] and N.contains(g, e["key"][1]) for g in p.guards()) for e in st):
+            every = False       # the store is conditional on the entry
+        if st:
+            e = st[0]
+            src = e["key"][1] if e["key"][0] == "attr" else None
+            good = e["key"][0] == "attr" and e["key"][2] == "name" and e["value"][0] == "attr" and e["value"][2] == "value" and e["key"][1] == e["value"][1] \
+                and all(p.index(e) < p.index(w) for w in wr) and bool(wr)
+            if good and src is not None and any(x[0] == "attr" and x[2] == "__members__" for x in N.walk(src)):
+                good, why = False, " (iterates __members__, which includes aliases)"
+        elif up:
+            e = up[0]
+            arg = e["args"][0] if len(e["args"]) == 1 else None
+            if arg is not None and arg[0] == "comp" and len(arg[3]) == 1 and not arg[3][0][1] and arg[2][0] == "tuple" and len(arg[2][1]) == 2:
+                it = arg[3][0][0]
+                k, v = arg[2][1]
+                if any(x[0] == "attr" and x[2] == "__members__" for x in N.walk(it)):
+                    good, why = False, " (iterates __members__, which includes aliases)"
+                elif it[0] == "elem" and k[0] == "attr" and k[2] == "name" and v[0] == "attr" and v[2] == "value" and k[1] == v[1] and k[1][0] == "elem" and k[1][1] == it:
+                    good = all(p.index(e) < p.index(w) for w in wr) and bool(wr)
+                else:
+                    undecided = N.show(arg)[:120]
+            else:
+                undecided = N.show(arg)[:120] if arg is not None else "update() without a single argument"
+    if undecided:
+        ctx.error("%s undecided: %s.__init__ merges enum classes in a form the rule does not know (%s)" % (rule, cls, undecided))
+    ctx.ob(rule, fi, good and every, "%severy canonical entry of a merged enum class is written, unconditionally, as name -> value into the keyword mapping before the tables are derived%s" % (prefix, why),
+           key=key or "%s enum merge" % cls, loc=loc)
+
 def run(ctx):
     M = ctx.model
     sing = M.singletons()
@@ -326,24 +389,7 @@ def run(ctx):
                 continue
             # ---- enum merge laws
             if lhs.startswith(("Enum(", "FlagsEnum(")):
-                cls = lhs.split("(")[0]
-                fi, paths = own_method_paths(ctx, cls, "__init__")
-                dst = ("param", "**mapping") if cls == "Enum" else ("param", "**flags")
-                good = False
-                every = True
-                for p in paths:
-                    inner_iters = [e for e in p.events if e.kind == "ITER" and len(e.loops) >= 2]
-                    if inner_iters and not any(e.kind == "STORE" and e["base"] == dst for e in p.events):
-                        every = False       # an entry of a merged enum class was skipped (e.g. a member whose value is 0)
-                    if any(e.kind == "STORE" and e["base"] == dst and any(g != e["key"][1] and N.contains(g, e["key"][1]) for g in p.guards()) for e in p.events if e.kind == "STORE" and e["key"][0] == "attr"):
-                        every = False       # the store is conditional on the entry
-                    st = [e for e in p.events if e.kind == "STORE" and e["base"] == dst]
-                    wr = [e for e in p.events if e.kind == "SELFWRITE" and e["base"] == SELF and e["attr"] in ("encmapping", "decmapping", "flags")]
-                    if st:
-                        e = st[0]
-                        good = e["key"][0] == "attr" and e["key"][2] == "name" and e["value"][0] == "attr" and e["value"][2] == "value" and e["key"][1] == e["value"][1] \
-                            and all(p.index(e) < p.index(w) for w in wr) and bool(wr)
-                ctx.ob("C12.R2", fi, good and every, "enum law `%s`: every entry of a merged enum class is written, unconditionally, as name -> value into the keyword mapping before the tables are derived" % text, key=key, loc=loc)
+                enum_merge(ctx, "C12.R2", lhs.split("(")[0], "enum law `%s`: " % text, key=key, loc=loc)
                 continue
             raise ValueError("no discharge method")
         except (ValueError, SyntaxError, IndexError, KeyError, TypeError) as e:
@@ -410,18 +456,8 @@ def run(ctx):
             out |= set(g[2]) if g[0] == "bool" and g[1] == "and" else {g}
         return out
     ctx.ob("C12.R1", fi, all({N.mk_not(isint), N.mk_not(iscall)} <= _flat(p) for p in other), "x[n] accepts every integer and every callable count (it refuses only what is neither)", key="getitem accepts")
-    for dunder, cls in (("__add__", "Struct"), ("__rshift__", "Sequence")):
-        fi, paths = own_method_paths(ctx, "Construct", dunder)
-        o = ("param", "other")
-        ok = len(paths) == 1
-        if ok:
-            r = paths[0].retval
-            isS = lambda x: ("call", ("free", "isinstance"), (x, ("free", cls)), ())
-            lhs = N.mk_ite(isS(SELF), ("attr", SELF, "subcons"), ("list", (SELF,)))
-            rhs = N.mk_ite(isS(o), ("attr", o, "subcons"), ("list", (o,)))
-            ok = r[0] == "ctor" and r[1] == cls and len(r[2]) == 1 and r[2][0][0] == "star" and r[2][0][1] in (("uconcat", lhs, rhs), ("concat", lhs, rhs))
-        ctx.ob("C12.R1", fi, ok, "a %s b is %s(*(members of a + members of b)), flattening %s operands only" % ("+" if cls == "Struct" else ">>", cls, cls), key=dunder)
-    ctx.floor("C12.R1", 5)
+    composite_operators(ctx, "C12.R1")
+    ctx.floor("C12.R1", 7)
 
     # ---------------------------------------------------------------- R5 display wrappers
     hexrel = [r for r in M.modules if r.endswith("hex.py")][0]
